@@ -64,6 +64,9 @@ package service
 //@   params c capacity
 //@   atomic
 //@   requires c != nil
+//@   ensures[C07,resize-sets-the-history-size] result == nil ==> c.capacity == capacity
+//@   ensures[C07,oversized-history-refused] capacity > MaxCapacity ==> result != nil
+//@   ensures[C07,resize-keeps-what-is-remembered] c.active == atlock(c.active) && c.archive == atlock(c.archive)
 
 // NewReplayCache builds an empty history; with the empty ghost history (no handshake checked yet)
 // such a cache satisfies the representation invariant (lemma), so the invariant holds from the start.
@@ -114,9 +117,11 @@ package service
 // ---------------------------------------------------------------------------
 
 //@ func remoteIP
-//@   props C18
+//@   props C01 C18
 //@   params conn
 //@   requires conn != nil
+//@   trace[C01,client-ip-is-the-connections-remote-address] each net.Conn.RemoteAddr satisfies $recv == conn
+//@   trace[C01,one-address-read] exactly 1 net.Conn.RemoteAddr
 
 // aeadMatch(e, fb): the first chunk header in fb authenticates under the key of list element e
 // (uf_aeadOK is the idealised AEAD: Unpack succeeds iff it holds; see sdk.contract).
@@ -201,8 +206,12 @@ package service
 //@   ensures err == nil ==> result == nil
 
 //@ func drainErrToString
-//@   props C18
+//@   props C15 C18
 //@   params drainErr
+//@   ensures[C15,clean-end-of-stream] drainErr == nil ==> result == "eof"
+//@   ensures[C15,drain-outcome-is-one-of-three] result == "eof" || result == "timeout" || result == "other"
+//@   ensures[C15,error-is-not-eof] drainErr != nil ==> result != "eof"
+//@   trace[C15,timeout-named-as-such] each net.Error.Timeout satisfies ($res0 == true ==> result == "timeout") && ($res0 == false ==> result == "other")
 
 // getProxyRequest consumes exactly the SOCKS address from the decrypted stream (through the SOCKS
 // parser, verified from its own SSA to read no byte beyond it) and reports every parse error.
@@ -565,6 +574,8 @@ package service
 //@   params addr
 //@   pure
 //@   requires addr != nil
+//@   trace[C14,dns-means-port-53-of-this-address] each net.SplitHostPort satisfies $arg0 == pure("net.Addr.String", addr) && result == ($res1 == "53")
+//@   trace[C14,port-looked-up-once] exactly 1 net.SplitHostPort
 
 // onWrite: the association's deadline never moves earlier, is at least now + 17 s after a DNS
 // datagram and now + the configured timeout after any other, and the tracked value changes only
@@ -1051,7 +1062,9 @@ package service
 //@   trace[C15,handled-once-with-its-own-metrics] exactly 1 service.StreamHandler.Handle
 //@   trace[C15,C17,handler-reports-to-this-connections-metrics] each service.StreamHandler.Handle satisfies $recv == s.sh && $arg1 == conn && $arg0 == ctx && (evcount("service.ServiceMetrics.AddOpenTCPConnection") == 1 ==> $arg2 == evres("service.ServiceMetrics.AddOpenTCPConnection", 0))
 //@ func (*ssService).HandlePacket
-//@   props C18
+//@   props C03 C18
+//@   trace[C03,C18,packets-handled-by-the-service-handler-once] exactly 1 service.PacketHandler.Handle
+//@   trace[C03,handles-this-listener] each service.PacketHandler.Handle satisfies $recv == s.ph && $arg0 == conn
 //@   params s conn
 //@   requires s != nil && s.ph != nil && conn != nil
 
